@@ -45,10 +45,13 @@ def protocol_following(ops):
     kids = {}               # tid -> set of live child tids
     parent = {}
     seen_loc = set()
+    att = {}                # tid -> number of `with prepare_attachment` blocks the thread is inside
     for op in ops:
         tid, k = op["tid"], op["op"]
         if k == "endStep":
             return False
+        if att.get(tid) and (k in _START_OPS or k in _END_OPS or k == "threadEnd"):
+            return False    # a `with` block lies inside the user code of one result / one thread body
         if k in _START_OPS:
             if tid in open_result:
                 return False
@@ -78,10 +81,17 @@ def protocol_following(ops):
             if kids.get(tid):
                 return False
             kids.get(parent.get(tid), set()).discard(tid)
-        elif k in ("log", "check", "url", "attach", "attachBegin", "attachEnd"):
+        elif k in ("log", "check", "url", "attach"):
             if tid not in has_step:
                 return False
-    return not open_result and not any(kids.values())
+        elif k == "attachBegin":
+            att[tid] = att.get(tid, 0) + 1
+        elif k == "attachEnd":
+            # leaving fires the attachment event: needs a current step and a matching open block of the same thread
+            if tid not in has_step or not att.get(tid):
+                return False
+            att[tid] -= 1
+    return not open_result and not any(kids.values()) and not any(att.values())
 
 
 def grammar_failures(prop, ops, fired):
@@ -151,30 +161,62 @@ def gen_ops(rng, chaos=0.05):
     test_no = [0]
     ops.append({"tid": 1, "op": "startTestSession"})
 
+    def spawn(tid, depth):
+        new = nxt_thread[0]
+        nxt_thread[0] += 1
+        inner = [{"tid": new, "op": "threadRun"}] + body_ops(new, depth + 1) + [{"tid": new, "op": "threadEnd"}]
+        return [{"tid": tid, "op": "threadCreate", "new": new}, ("spawned", inner)]
+
+    def simple_op(tid, r):
+        """log / check / url / atomic attach, chosen by r in [0, 1)"""
+        if r < 0.45:
+            return {"tid": tid, "op": "log", "level": rng.choice(["debug", "info", "warn", "error", "info"]),
+                    "msg": "m%d" % rng.randint(0, 99)}
+        if r < 0.72:
+            return {"tid": tid, "op": "check", "desc": "c%d" % rng.randint(0, 9), "ok": rng.random() < 0.7,
+                    "details": rng.choice([None, "det", ""])}
+        if r < 0.84:
+            return {"tid": tid, "op": "url", "url": "http://u/%d" % rng.randint(0, 9), "desc": "u"}
+        return {"tid": tid, "op": "attach", "file": "f%d.txt" % rng.randint(0, 3), "desc": "a", "img": rng.random() < 0.3}
+
+    def window_ops(tid, depth, wdepth=0):
+        """`with prepare_attachment(..) as path:` around a body that calls the session api: attachBegin, the body's
+        calls (same thread; possibly a spawned lcc.Thread, possibly a nested block), attachEnd.  About half of the
+        windows contain a set_step: the attachment must then be reported under the NEW step."""
+        body = []
+        for _ in range(rng.randint(0, 4)):
+            r = rng.random()
+            if r < 0.3:
+                body.append({"tid": tid, "op": "setStep", "desc": "in%d" % rng.randint(0, 3)})
+            elif r < 0.78:
+                body.append(simple_op(tid, rng.random()))
+            elif r < 0.9 and wdepth < 2:
+                body += window_ops(tid, depth, wdepth + 1)
+            elif depth < 1:
+                body += spawn(tid, depth)
+        if rng.random() < 0.35 and not any(isinstance(o, dict) and o["op"] == "setStep" for o in body):
+            body.insert(rng.randint(0, len(body)), {"tid": tid, "op": "setStep", "desc": "in%d" % rng.randint(0, 3)})
+        out = [{"tid": tid, "op": "attachBegin", "file": "w%d.bin" % rng.randint(0, 3), "desc": "w%d" % rng.randint(0, 9),
+                "img": rng.random() < 0.3}]
+        out += body
+        if not rng.random() < chaos:            # chaos: the block is never left
+            out.append({"tid": tid, "op": "attachEnd"})
+        return out
+
     def body_ops(tid, depth=0):
         out = []
         for _ in range(rng.randint(0, 6)):
             r = rng.random()
-            if r < 0.22:
+            if r < 0.2:
                 out.append({"tid": tid, "op": "setStep", "desc": "step%d" % rng.randint(0, 3)})
-            elif r < 0.5:
-                out.append({"tid": tid, "op": "log", "level": rng.choice(["debug", "info", "warn", "error", "info"]),
-                            "msg": "m%d" % rng.randint(0, 99)})
-            elif r < 0.68:
-                out.append({"tid": tid, "op": "check", "desc": "c%d" % rng.randint(0, 9), "ok": rng.random() < 0.7,
-                            "details": rng.choice([None, "det", ""])})
-            elif r < 0.75:
-                out.append({"tid": tid, "op": "url", "url": "http://u/%d" % rng.randint(0, 9), "desc": "u"})
-            elif r < 0.83:
-                out.append({"tid": tid, "op": "attach", "file": "f%d.txt" % rng.randint(0, 3), "desc": "a", "img": rng.random() < 0.3})
-            elif r < 0.92 and depth < 1:
-                new = nxt_thread[0]
-                nxt_thread[0] += 1
-                out.append({"tid": tid, "op": "threadCreate", "new": new})
-                inner = [{"tid": new, "op": "threadRun"}] + body_ops(new, depth + 1) + [{"tid": new, "op": "threadEnd"}]
-                out.append(("spawned", inner))
+            elif r < 0.72:
+                out.append(simple_op(tid, rng.random()))
+            elif r < 0.84:
+                out += window_ops(tid, depth)
+            elif r < 0.93 and depth < 1:
+                out += spawn(tid, depth)
             elif rng.random() < chaos:
-                out.append({"tid": tid, "op": "endStep"})
+                out.append({"tid": tid, "op": rng.choice(["endStep", "endStep", "attachEnd"])})
         return out
 
     used_phases = set()
@@ -262,6 +304,39 @@ def gen_ops(rng, chaos=0.05):
     return ops
 
 
+def _window_corpus():
+    """hand-written cases around `with prepare_attachment(..)` blocks whose body calls the session api"""
+    def test(tid, name, rank, body):
+        p = ["s", name]
+        return [{"tid": tid, "op": "startTest", "path": p, "md": md_of(name, rank)}] + body + [{"tid": tid, "op": "endTest", "path": p}]
+
+    def begin(tid, f, d, img=False):
+        return {"tid": tid, "op": "attachBegin", "file": f, "desc": d, "img": img}
+
+    def wrap(ops):
+        return {"ops": [{"tid": 1, "op": "startTestSession"}] + ops + [{"tid": 1, "op": "endTestSession"}]}
+    step = lambda tid, d: {"tid": tid, "op": "setStep", "desc": d}
+    log = lambda tid, m: {"tid": tid, "op": "log", "level": "info", "msg": m}
+    end = lambda tid: {"tid": tid, "op": "attachEnd"}
+    return [
+        # the step changes inside the block, after a log: a's end, b's start (flushed at exit), attachment under b
+        wrap(test(1, "t1", 1, [step(1, "a"), log(1, "x"), begin(1, "f", "d"), step(1, "b"), end(1)])),
+        # ... and without the log: the empty step a is elided
+        wrap(test(1, "t1", 1, [step(1, "a"), begin(1, "f", "d"), step(1, "b"), end(1)])),
+        # nested blocks, a step change in the inner one
+        wrap(test(1, "t1", 1, [step(1, "a"), begin(1, "f", "outer"), begin(1, "g", "inner", True), step(1, "b"), end(1),
+                               log(1, "y"), end(1)])),
+        # two workers, blocks overlapping in time
+        wrap(test(1, "t1", 1, [step(1, "a")])[:-1] + test(2, "t2", 2, [step(2, "b")])[:-1] +
+             [begin(1, "f", "one"), begin(2, "g", "two"), step(2, "b2"), end(1), end(2),
+              {"tid": 1, "op": "endTest", "path": ["s", "t1"]}, {"tid": 2, "op": "endTest", "path": ["s", "t2"]}]),
+        # a lcc.Thread started and finished inside the block; the parent's held step start is not flushed on entry
+        wrap(test(1, "t1", 1, [step(1, "a"), begin(1, "f", "d"), {"tid": 1, "op": "threadCreate", "new": 10},
+                               {"tid": 10, "op": "threadRun"}, log(10, "in thread"), {"tid": 10, "op": "threadEnd"},
+                               end(1)])),
+    ]
+
+
 class SessionStream(C.Stream):
     name = "sess"
     quick_cases = 250
@@ -269,7 +344,7 @@ class SessionStream(C.Stream):
     quick_seconds = 35
     thorough_seconds = 400
     chunk = 50
-    corpus = []
+    corpus = _window_corpus()
 
     def gen(self, rng, i):
         return {"ops": gen_ops(rng, chaos=0.15 if i % 5 == 0 else 0.0)}
@@ -308,6 +383,10 @@ class SessionStream(C.Stream):
         threading.excepthook = hook
         workers = {}
         lccthreads = {}
+        open_cms = {}       # tid -> stack of entered `prepare_attachment` context managers
+
+        class NoOpenAttachment(Exception):
+            pass
         error = None
         accepted = 0
 
@@ -347,6 +426,20 @@ class SessionStream(C.Stream):
                 with session.prepare_attachment(op["file"], op["desc"], as_image=op["img"]) as path:
                     with open(path, "w") as fh:
                         fh.write("x")
+            elif k == "attachBegin":
+                # entering `with session.prepare_attachment(..) as path:` — the body (the following ops of this
+                # thread up to the matching attachEnd) runs with the context manager suspended at its `yield`
+                cm = session.prepare_attachment(op["file"], op["desc"], as_image=op["img"])
+                path = cm.__enter__()
+                with open(path, "w") as fh:
+                    fh.write("x")
+                open_cms.setdefault(op["tid"], []).append(cm)
+            elif k == "attachEnd":
+                stack = open_cms.get(op["tid"])
+                if not stack:
+                    raise NoOpenAttachment()
+                # leaving the block normally; entered and left by the same real thread
+                stack.pop().__exit__(None, None, None)
             elif k == "threadCreate":
                 new = op["new"]
                 # precondition of lcc.Thread (always true when the runner calls user code): a step is current;
@@ -411,7 +504,7 @@ class SessionStream(C.Stream):
                     q.put(op)
                     st = ack.get(timeout=20)
                 if st[0] == "err":
-                    error = {"AttributeError": "noCursor", "AssertionError": "noStep"}.get(st[1], st[1])
+                    error = {"AttributeError": "noCursor", "AssertionError": "noStep", "NoOpenAttachment": "noAttach"}.get(st[1], st[1])
                     break
                 accepted += 1
             with flock:
@@ -473,6 +566,23 @@ class SessionStream(C.Stream):
             f.append("lcc.Thread")
         if obs["error"]:
             f.append("error=" + str(obs["error"]))
+        # `with prepare_attachment` windows: how many, and what happens inside them
+        depth, n_win, inside = {}, 0, set()
+        for op in case["ops"]:
+            t, k = op["tid"], op["op"]
+            if k == "attachBegin":
+                n_win += 1
+                if depth.get(t):
+                    inside.add("nested")
+                depth[t] = depth.get(t, 0) + 1
+            elif k == "attachEnd":
+                if depth.get(t):
+                    depth[t] -= 1
+            elif depth.get(t):
+                inside.add(k)
+        if n_win:
+            f.append("attach-window")
+            f += sorted("attach-window+" + k for k in inside if k in ("setStep", "nested", "threadCreate", "log", "check"))
         kinds = {e["e"] for e in obs["fired"]}
         f += sorted("ev=" + k for k in kinds if k in ("stepStart", "sessionSetupStart", "suiteSetupStart", "att", "testSkipped"))
         return f
